@@ -751,6 +751,9 @@ func oracleC06(s *Scenario, x *vrt.Exec, o *Obs) []vrt.Violation {
 	for _, e := range o.W.Ledger {
 		if e.Kind == "exec-start" {
 			bound += closure[e.Step] + s.Script.For(e.Step).CancelMS
+			if e.Seq >= o.CancelSeq && e.Seq < o.RetSeq {
+				running[e.Conn] = e.Step // began to execute in the window after the cancellation: reached like the others
+			}
 		}
 	}
 	bound += s.maxScriptMS()
@@ -784,11 +787,15 @@ func oracleC06(s *Scenario, x *vrt.Exec, o *Obs) []vrt.Violation {
 			out = append(out, viol(s, "plugin-left-running", step, fmt.Sprintf("plugin %s was executing when the run was cancelled and is still executing when Execute returned\n%s", step, o.W.LedgerString())))
 			continue
 		}
-		if hasHandler && !signalled && !closed {
+		if hasHandler && !signalled {
 			// it may have finished by itself right after the cancellation; only a plugin that had to be
-			// stopped must have been reached
+			// stopped must have been asked to stop (a plugin with a handler is signalled, not just killed)
 			if k := s.Script.For(step).Run; k == env.RunHangCancel || k == env.RunHangIgnore {
-				out = append(out, viol(s, "cancel-signal-not-sent", step, fmt.Sprintf("plugin %s was executing when the run was cancelled but received neither the cancel signal nor a close\n%s", step, o.W.LedgerString())))
+				what := "received neither the cancel signal nor a close"
+				if closed {
+					what = "was closed without having been sent the cancel signal"
+				}
+				out = append(out, viol(s, "cancel-signal-not-sent", step, fmt.Sprintf("plugin %s was executing when the run was cancelled but %s\n%s", step, what, o.W.LedgerString())))
 			}
 		}
 		if !hasHandler && !closed {
